@@ -241,6 +241,21 @@ Inductive sfield :=
 
 Definition tag_ok (fn wt : N) : bool := negb ((wt =? 4) || (fn =? 0) || (two31 <=? fn)).
 
+(* case 10: one map entry; afterwards iNdEx = postIndex whatever the entry loop consumed *)
+Definition xattr_field (wt : N) (r : bytes) : option (sfield * bytes) :=
+  if wt =? 2 then
+    match get_varint r with
+    | None => None
+    | Some (n, r1) =>
+      if n <=? len r1 then
+        match dec_entry (length r1) (len r1 - n) r1 [] [] with
+        | Some (k, v) => Some (SF_xattr k v, skipn (N.to_nat n) r1)
+        | None => None
+        end
+      else None
+    end
+  else None.
+
 Definition dec_sfield (l : bytes) : option (sfield * bytes) :=
   match get_tag l with
   | None => None
@@ -256,19 +271,7 @@ Definition dec_sfield (l : bytes) : option (sfield * bytes) :=
       | 7 => bytes_field wt r SF_linkname
       | 8 => varint_field wt r SF_devmajor
       | 9 => varint_field wt r SF_devminor
-      | 10 =>
-        if wt =? 2 then
-          match get_varint r with
-          | None => None
-          | Some (n, r1) =>
-            if n <=? len r1 then
-              match dec_entry (length r1) (len r1 - n) r1 [] [] with
-              | Some (k, v) => Some (SF_xattr k v, skipn (N.to_nat n) r1)
-              | None => None
-              end
-            else None
-          end
-        else None
+      | 10 => xattr_field wt r
       | _ => unknown_field l SF_unknown
       end
     else None
